@@ -50,6 +50,14 @@ static void sbx_init(void) {
     if (!sbx_inited) verif_sbx_init();
 }
 
+/* Capabilities that were already disabled in the creating thread when this thread was started:
+ * a thread started after sandboxing must not regain them, whatever its own flag word says. */
+__thread uint32_t verif_sbx_floor = 0;
+
+static uint32_t sbx_effective(void) {
+    return janet_vm.sandbox_flags | verif_sbx_floor;
+}
+
 static int bit_index(uint32_t cls) {
     int i = 0;
     while (cls > 1) { cls >>= 1; i++; }
@@ -60,7 +68,7 @@ static int bit_index(uint32_t cls) {
 static int sbx_note(uint32_t cls, const char *name, const char *detail) {
     sbx_init();
     __atomic_add_fetch(&sbx_calls[bit_index(cls)], 1, __ATOMIC_RELAXED);
-    if (sbx_logall || (janet_vm.sandbox_flags & cls)) {
+    if (sbx_logall || (sbx_effective() & cls)) {
         int i = __atomic_fetch_add(&sbx_n, 1, __ATOMIC_SEQ_CST);
         if (i < SBX_LOG_MAX) {
             sbx_log[i].cls = cls;
@@ -234,7 +242,7 @@ int __real_getaddrinfo(const char *n, const char *s, const struct addrinfo *h, s
 int __wrap_getaddrinfo(const char *n, const char *s, const struct addrinfo *h, struct addrinfo **r) {
     /* name resolution is network access of either kind: forbidden only when both are */
     sbx_init();
-    if (sbx_logall || (janet_vm.sandbox_flags & JANET_SANDBOX_NET) == JANET_SANDBOX_NET)
+    if (sbx_logall || (sbx_effective() & JANET_SANDBOX_NET) == JANET_SANDBOX_NET)
         sbx_note(JANET_SANDBOX_NET_CONNECT, "getaddrinfo", n ? n : "");
     else {
         sbx_init();
@@ -317,7 +325,7 @@ void *__wrap_dlopen(const char *p, int fl) {
      * being clear can legitimately reach dlopen, so only both set is a violation. */
     uint32_t both = JANET_SANDBOX_DYNAMIC_MODULES | JANET_SANDBOX_FFI_DEFINE;
     sbx_init();
-    if (sbx_logall || (janet_vm.sandbox_flags & both) == both)
+    if (sbx_logall || (sbx_effective() & both) == both)
         sbx_note(JANET_SANDBOX_DYNAMIC_MODULES, "dlopen", p ? p : "");
     else {
         sbx_init();
